@@ -7,7 +7,7 @@
 From Coq Require Import List String Bool Permutation.
 From Coq Require Import Floats.PrimFloat.
 From PAFC01 Require Import ModelTree Model Proofs2 Proofs3.
-From PAFC08 Require Import Model Lib Proofs1 Proofs2 Proofs3 Proofs4 Witness.
+From PAFC08 Require Import Model Lib Proofs1 Proofs2 Proofs3 Proofs4 Proofs5 Witness.
 Import ListNotations.
 
 (* ---- one round trip (any of the three forms) succeeds and yields an equivalent model; PARTIAL: under
@@ -101,6 +101,32 @@ Theorem C08_db_pinned : forall (V : Type) (cf : cfg) (mu : nat -> nat) (n : snod
   exists n', db_rt V cf n = Ok n' /\ tree V n' = ren V mu (tree V n).
 Proof. exact db_pinned_tree. Qed.
 
+(* ---- the codecs in general (arithmetic priors, components without free parameters, dict constants
+   included): the stateful dict decoder computes the declarative image of the model under its final
+   lookup table; the database codec computes the image with every prior under its own id ---- *)
+Theorem C08_dict_image : forall (V : Type) (falsy : V -> bool) (cf : cfg) (n : snode V),
+  forall_nodes V (fun m => match dict_pre V m with None => true | Some _ => false end) n = true ->
+  ok_all V cf (vocc V (as_instance V) n) ->
+  exists st', dict_rt V falsy cf n = Ok (pmap V (look V st') (dict_filter V falsy cf) (as_instance V) (dict_post V) n) /\
+              inv V st' /\ covers V st' (vocc V (as_instance V) n) /\
+              from V (mkd V [] (fresh_base V n)) st' (vocc V (as_instance V) n).
+Proof. exact dict_image. Qed.
+
+Theorem C08_db_image : forall (V : Type) (cf : cfg) (n : snode V),
+  forall_nodes V (db_chain_ok V cf) n = true -> all_occs V (db_occ_ok V cf) n = true ->
+  db_rt V cf n = Ok (pmap V (fun p sp => (p, with_mid V sp (Some p))) (fun d => d) (fun _ => false) (rebuild_bin_default V) n).
+Proof. exact db_image. Qed.
+
+(* models WITH arithmetic priors through the database: the operand attribute names change (C08_arith_names_refuted)
+   but the parameter order, the count and the instance built from every vector do not *)
+Theorem C08_db_arith : forall (V : Type) (cf : cfg) (bin : binop -> V -> V -> V) (n : snode V) (vec : list V),
+  forall_nodes V (db_chain_ok V cf) n = true -> all_occs V (db_occ_ok V cf) n = true -> wf V (tree V n) ->
+  exists n', db_rt V cf n = Ok n' /\
+             ordered_ids V (tree V n') = ordered_ids V (tree V n) /\
+             prior_count V (tree V n') = prior_count V (tree V n) /\
+             inst_from_vector V bin (tree V n') vec = inst_from_vector V bin (tree V n) vec.
+Proof. exact db_arith. Qed.
+
 (* ---- the full statement is refuted on the faithful model of the pinned code ---- *)
 Theorem C08_db_refuted :
   exists n n', consistent float n /\ db_rt float cfg_pinned n = Ok n' /\
@@ -153,3 +179,5 @@ Print Assumptions C08_iter_partial.
 Print Assumptions C08_iter_fixed.
 Print Assumptions C08_instance.
 Print Assumptions C08_db_refuted.
+Print Assumptions C08_dict_image.
+Print Assumptions C08_db_arith.
